@@ -1132,6 +1132,11 @@ def gen_special_cases(rng, now_ms):
             for a in ("Chev", "let", "vro", "", "1e+06", "1", "true", "null", "x"):
                 out.append((('call', [('k', 'a'), ('k', 'b')], name, [('str', a)]), {"a": {"b": subj}}, {}))
                 out.append((('U', '!', ('call', [('k', 'a'), ('b', 'b')], name, [('str', a)])), {"a": {"b": subj}}, {}))
+        # the subject path has no match: the helper is false whatever its argument ("false" contains "a")
+        for a in ("", "a", "fal", "false", "e", "x"):
+            out.append((('call', [('k', 'a'), ('k', 'zz')], name, [('str', a)]), {"a": {"b": 1}}, {}))
+            out.append((('call', [('k', 'zz')], name, [('str', a)]), {}, {}))
+            out.append((('L', [('U', '!', ('call', [('k', 'zz'), ('w',)], name, [('str', a)])), ('true',)], ['and']), {"a": 1}, {}))
     return out
 
 
